@@ -7,8 +7,18 @@
  * Closed driver: the stream is 01 02 03 ...; the source is chunk-style with a
  * finite script of per-call behaviours (when the script runs out: transfer
  * everything asked) and offers a scratch region [offset, used) inside an
- * exact-size heap block; the sink is chunk-style with its own script.  All
- * scripts up to the stated length are enumerated, fewest deviations first.
+ * exact-size heap block; the sink is chunk-style with its own script.  The
+ * behaviours are the ones of the statement: partial transfers (1, 2), the
+ * zero-length return, EINTR / EAGAIN and a hard error (EIO).  Every placement
+ * of up to `maxlen` deviating answers over maxlen + maxlen call slots is
+ * enumerated, fewest deviations first.
+ *
+ * Oracle (the one of c17_endpoints.c): what reached the sink is a prefix of
+ * the stream; the first hard error a driver answered is what the call returns;
+ * without one, the counted form returns n with exactly n octets moved (0 /
+ * EINTR / EAGAIN are retried through) and the drain form moves the whole
+ * stream; the at-most forms never move more than asked, return the count
+ * moved, and may pass an interruption on only if nothing was taken and dropped.
  */
 #include "mc.h"
 
@@ -18,8 +28,8 @@
 #define STREAM 12
 #define BUDGET 200
 
-enum beh { B_REST, B_ONE, B_TWO, B_NBEH };
-static const char *BN[] = { "rest", "1", "2" };
+enum beh { B_REST, B_ONE, B_TWO, B_ZERO, B_EINTR, B_EAGAIN, B_EIO, B_NBEH };
+static const char *BN[] = { "rest", "1", "2", "0", "EINTR", "EAGAIN", "EIO" };
 
 static struct {
     /* source */
@@ -33,7 +43,31 @@ static struct {
     int kscript[4], klen, kcall;
     long calls;
     bool overrun, wrote_outside;
+    /* answers really delivered */
+    int first_hard, first_scripted_hard;
+    bool seen_eintr, seen_eagain;
+    int partials, zeros, intrs, hards, ends;
 } E;
+
+/* a scripted answer that moves nothing; returns true and the answer if `b` is one */
+static bool
+stalling(int b, ssize_t *ans)
+{
+    switch (b) {
+    case B_ZERO: E.zeros++; *ans = 0; return true;
+    case B_EINTR: E.intrs++; E.seen_eintr = true; *ans = -EINTR; return true;
+    case B_EAGAIN: E.intrs++; E.seen_eagain = true; *ans = -EAGAIN; return true;
+    case B_EIO:
+        E.hards++;
+        if (E.first_hard == 0)
+            E.first_hard = -EIO;
+        if (E.first_scripted_hard == 0)
+            E.first_scripted_hard = -EIO;
+        *ans = -EIO;
+        return true;
+    default: return false;
+    }
+}
 
 static ssize_t
 src_chunk(void *drv, void *buf, size_t n)
@@ -49,15 +83,24 @@ src_chunk(void *drv, void *buf, size_t n)
     const uintptr_t p = (uintptr_t)buf, blk = (uintptr_t)E.scratch;
     if (n > 0 && p < blk + E.ssize && p + n > blk && !(p >= blk + E.soff && p + n <= blk + E.sused))
         E.wrote_outside = true;
-    if (E.pos >= E.len)
+    if (E.pos >= E.len) {
+        E.ends++;
+        if (E.first_hard == 0)
+            E.first_hard = -ENODATA;
         return -ENODATA;
+    }
     const int b = E.scall < E.slen ? E.sscript[E.scall] : B_REST;
     E.scall++;
+    ssize_t ans;
+    if (stalling(b, &ans))
+        return ans;
     size_t k = b == B_ONE ? 1 : b == B_TWO ? 2 : n;
     if (k > n)
         k = n;
     if (k > E.len - E.pos)
         k = E.len - E.pos;
+    if (k < n && k < E.len - E.pos)
+        E.partials++;
     for (size_t i = 0; i < k; ++i)
         ((unsigned char *)buf)[i] = (unsigned char)(E.pos + i + 1);
     E.pos += k;
@@ -83,9 +126,14 @@ snk_chunk(void *drv, const void *buf, size_t n)
     }
     const int b = E.kcall < E.klen ? E.kscript[E.kcall] : B_REST;
     E.kcall++;
+    ssize_t ans;
+    if (stalling(b, &ans))
+        return ans;
     size_t k = b == B_ONE ? 1 : b == B_TWO ? 2 : n;
     if (k > n)
         k = n;
+    if (k < n)
+        E.partials++;
     if (E.ngot + k > sizeof E.got) {
         E.overrun = true;
         return -EIO;
@@ -98,7 +146,21 @@ snk_chunk(void *drv, const void *buf, size_t n)
 enum op { OP_N, OP_ATMOST, OP_SOME, OP_DRAIN, NOPS };
 static const char *OPN[] = { "sts_n", "sts_atmost", "sts_some", "sts_drain" };
 
-static void
+static bool intr_code(ssize_t rc) { return rc == -EINTR || rc == -EAGAIN; }
+static bool intr_seen(ssize_t rc) { return (rc == -EINTR && E.seen_eintr) || (rc == -EAGAIN && E.seen_eagain); }
+
+/* "a hard driver error is returned unchanged": the first one any driver
+ * answered; where that was the source's own end, an at-most step may have
+ * reported its short count, so a scripted error answered after it is accepted too */
+static bool
+hard_ok(ssize_t rc)
+{
+    if (rc == E.first_hard)
+        return true;
+    return E.first_hard == -ENODATA && E.first_scripted_hard != 0 && rc == E.first_scripted_hard;
+}
+
+static const char *
 run(int op, size_t n, size_t stream, size_t ssize, size_t soff, size_t sused, const int *ss, int sl, const int *ks, int kl)
 {
     memset(&E, 0, sizeof E);
@@ -127,44 +189,151 @@ run(int op, size_t n, size_t stream, size_t ssize, size_t soff, size_t sused, co
     mc_trans(1);
     mc_log("%s rc=%zd source position=%zu sink got=%zu calls=%ld", OPN[op], rc, E.pos, E.ngot, E.calls);
     mc_log_hex("sink", E.got, E.ngot);
+    free(E.scratch);
     const size_t region = sused - soff;
+    const bool stalled = (E.zeros + E.intrs) > 0;
     /* what reached the sink is always a prefix of the stream, in order */
     bool prefix = true;
     for (size_t i = 0; i < E.ngot; ++i)
         prefix &= E.got[i] == (unsigned char)(i + 1);
-    if (E.overrun)
+    if (E.overrun) {
         mc_fail("C17/hang", "%s: driver call budget exceeded", OPN[op]);
-    else if (E.wrote_outside)
+        return "failed";
+    }
+    if (E.wrote_outside) {
         mc_fail("C17/aux-region", "%s asked the source to fill memory of the scratch block outside the offered region", OPN[op]);
-    else if (!prefix)
-        mc_fail("C17/sink-prefix", "%s: what reached the sink is not a prefix of the stream", OPN[op]);
-    else if (E.ngot != E.pos)
-        mc_fail("C17/no-loss", "%s: %zu octets taken from the source, %zu reached the sink", OPN[op], E.pos, E.ngot);
-    else
-        switch (op) {
-        case OP_N:
-            if (n <= stream) {
-                if (rc != (ssize_t)n || E.ngot != n)
-                    mc_fail("C17/exact-count", "sts_n(%zu) returned %zd and moved %zu octets", n, rc, E.ngot);
-            } else if (rc >= 0)
-                mc_fail("C17/hard-error-unchanged", "sts_n(%zu) on a stream of %zu octets returned %zd", n, stream, rc);
-            break;
-        case OP_ATMOST:
-            /* bounded by what was asked, not by the size of the scratch region */
-            if (stream > 0 && (rc < 0 || (size_t)rc != E.ngot || E.ngot > n || E.ngot == 0))
-                mc_fail("C17/atmost-count", "sts_atmost(%zu) with a %zu-octet scratch region returned %zd and moved %zu octets", n, region, rc, E.ngot);
-            break;
-        case OP_SOME:
-            if (stream > 0 && (rc < 0 || (size_t)rc != E.ngot || E.ngot == 0))
-                mc_fail("C17/atmost-count", "sts_some with a %zu-octet scratch region returned %zd and moved %zu octets", region, rc, E.ngot);
-            break;
-        case OP_DRAIN:
-            /* the return value of a drain that met nothing but the source's end is not pinned */
-            if (E.ngot != stream)
-                mc_fail("C17/drain-complete", "sts_drain moved %zu of %zu octets (rc %zd)", E.ngot, stream, rc);
-            break;
+        return "failed";
+    }
+    if (!prefix || E.ngot > E.pos) {
+        mc_fail("C17/sink-prefix", "%s: what reached the sink (%zu octets, %zu taken from the source) is not a prefix of the stream", OPN[op],
+                E.ngot, E.pos);
+        return "failed";
+    }
+    if (op == OP_DRAIN) {
+        if (E.first_scripted_hard != 0) {
+            if (rc != E.first_scripted_hard)
+                mc_fail("C17/hard-error-unchanged", "driver answered %d, sts_drain returned %zd", E.first_scripted_hard, rc);
+            return "hard-error";
         }
-    free(E.scratch);
+        /* the return value of a drain that met nothing but the source's end is not pinned */
+        if (E.ngot != stream || E.pos != stream) {
+            if (intr_code(rc))
+                mc_fail("C17/retry-interruptions", "sts_drain stopped with %zd after %zu of %zu octets", rc, E.ngot, stream);
+            else
+                mc_fail("C17/drain-complete", "sts_drain moved %zu of %zu octets (rc %zd)", E.ngot, stream, rc);
+            return "failed";
+        }
+        return stalled ? "drained-after-interruption" : "drained";
+    }
+    if (op == OP_N) {
+        if (E.ngot > n || E.pos > n) {
+            mc_fail("C17/exact-count", "sts_n(%zu) took %zu octets from the source and put %zu into the sink", n, E.pos, E.ngot);
+            return "failed";
+        }
+        if (E.first_hard != 0) {
+            if (!hard_ok(rc))
+                mc_fail("C17/hard-error-unchanged", "driver answered %d, sts_n(%zu) on a stream of %zu octets returned %zd", E.first_hard,
+                        n, stream, rc);
+            return E.first_scripted_hard == 0 ? "n-source-ended" : "hard-error";
+        }
+        if (rc != (ssize_t)n) {
+            if (intr_code(rc))
+                mc_fail("C17/retry-interruptions", "sts_n(%zu) returned %zd instead of retrying (%zu octets in the sink)", n, rc, E.ngot);
+            else
+                mc_fail("C17/exact-count", "sts_n(%zu) returned %zd and moved %zu octets", n, rc, E.ngot);
+            return "failed";
+        }
+        if (E.ngot != n || E.pos != n) {
+            mc_fail(E.ngot != n ? "C17/exact-count" : "C17/source-advance", "sts_n(%zu) returned %zd: %zu octets taken from the source, %zu reached the sink",
+                    n, rc, E.pos, E.ngot);
+            return "failed";
+        }
+        return stalled ? "n-moved-after-interruption" : "n-moved";
+    }
+    /* at-most forms: bounded by what was asked, not by the size of the scratch region */
+    if (op == OP_ATMOST && (E.ngot > n || E.pos > n)) {
+        mc_fail("C17/atmost-bound", "sts_atmost(%zu): %zu taken from the source, %zu put into the sink", n, E.pos, E.ngot);
+        return "failed";
+    }
+    if (rc >= 0) {
+        if (E.first_hard != 0 && !(E.first_scripted_hard == 0 && E.ngot > 0)) {
+            mc_fail("C17/hard-error-unchanged", "driver answered %d, %s returned %zd", E.first_hard, OPN[op], rc);
+            return "failed";
+        }
+        if ((size_t)rc != E.ngot) {
+            mc_fail("C17/atmost-count", "%s with a %zu-octet scratch region returned %zd and moved %zu octets", OPN[op], region, rc, E.ngot);
+            return "failed";
+        }
+        if (E.pos != E.ngot) {
+            mc_fail("C17/no-loss", "%s returned %zd: %zu octets taken from the source, %zu reached the sink", OPN[op], rc, E.pos, E.ngot);
+            return "failed";
+        }
+        if (rc == 0) {
+            /* nothing moved: only when a driver said so */
+            if (!stalled)
+                mc_fail("C17/atmost-count", "%s with a %zu-octet scratch region moved nothing although %zu octets were to be had and no driver answered 0",
+                        OPN[op], region, stream);
+            return "atmost-moved-none";
+        }
+        return "atmost-moved";
+    }
+    if (E.first_hard != 0) {
+        if (!hard_ok(rc))
+            mc_fail("C17/hard-error-unchanged", "driver answered %d, %s returned %zd", E.first_hard, OPN[op], rc);
+        return "hard-error";
+    }
+    if (intr_code(rc) && intr_seen(rc)) {
+        if (E.pos != E.ngot)
+            mc_fail("C17/no-loss", "%s passed on the interruption %zd after taking %zu octets from the source (%zu reached the sink)", OPN[op],
+                    rc, E.pos, E.ngot);
+        return "atmost-interrupted";
+    }
+    mc_fail("C17/atmost-count", "%s returned %zd, which no driver answered (%zu octets moved)", OPN[op], rc, E.ngot);
+    return "failed";
+}
+
+/* every placement of exactly d deviating answers over sl + kl call slots */
+struct en {
+    int op, gi, d, slots;
+    size_t n, stream;
+    int ss[4], ks[4];
+};
+static const size_t G[][3] = { { 1, 0, 1 }, { 2, 0, 2 }, { 3, 0, 3 }, { 5, 1, 4 }, { 8, 0, 8 }, { 4, 2, 3 } };
+
+static void
+en_rec(struct en *e, int start, int remaining)
+{
+    if (remaining == 0) {
+        if (!mc_would_run()) {
+            mc_skip_case();
+            return;
+        }
+        /* printed without the trailing default answers */
+        int sl = e->slots, kl = e->slots;
+        while (sl && e->ss[sl - 1] == B_REST)
+            --sl;
+        while (kl && e->ks[kl - 1] == B_REST)
+            --kl;
+        char sd[48] = "", kd[48] = "";
+        for (int i = 0; i < sl; ++i)
+            snprintf(sd + strlen(sd), sizeof sd - strlen(sd), "%s%s", i ? "," : "", BN[e->ss[i]]);
+        for (int i = 0; i < kl; ++i)
+            snprintf(kd + strlen(kd), sizeof kd - strlen(kd), "%s%s", i ? "," : "", BN[e->ks[i]]);
+        if (!mc_case("getbuffer dev=%d op=%s n=%zu stream=%zu scratch=(size %zu, region [%zu,%zu)) src=[%s] snk=[%s]", e->d, OPN[e->op],
+                     e->n, e->stream, G[e->gi][0], G[e->gi][1], G[e->gi][2], sd, kd))
+            return;
+        const char *outcome = run(e->op, e->n, e->stream, G[e->gi][0], G[e->gi][1], G[e->gi][2], e->ss, sl, e->ks, kl);
+        mc_end(true, outcome);
+        return;
+    }
+    for (int pos = start; pos + remaining <= 2 * e->slots; ++pos) {
+        int *slot = pos < e->slots ? &e->ss[pos] : &e->ks[pos - e->slots];
+        for (int b = B_REST + 1; b < B_NBEH; ++b) {
+            *slot = b;
+            en_rec(e, pos + 1, remaining - 1);
+        }
+        *slot = B_REST;
+    }
 }
 
 int
@@ -173,50 +342,22 @@ main(int argc, char **argv)
     mc_init(argc, argv);
     const bool th = mc_thorough();
     const int maxlen = th ? 4 : 3;
-    /* scratch geometries (size, offset, used) */
-    static const size_t G[][3] = { { 1, 0, 1 }, { 2, 0, 2 }, { 3, 0, 3 }, { 5, 1, 4 }, { 8, 0, 8 }, { 4, 2, 3 } };
     for (int op = 0; op < NOPS; ++op)
         for (unsigned gi = 0; gi < sizeof G / sizeof *G; ++gi)
             for (size_t stream = 1; stream <= (th ? 9u : 7u); ++stream)
-                for (size_t n = 1; n <= ((op == OP_N || op == OP_ATMOST) ? stream + 1 : 1); ++n) {
-                    /* scripts: total deviations (non-"rest" answers) 0, then 1, then 2, ... */
-                    for (int dev = 0; dev <= maxlen; ++dev)
-                        for (int sl = 0; sl <= maxlen; ++sl)
-                            for (int kl = 0; kl <= maxlen; ++kl) {
-                                int total = 1;
-                                for (int i = 0; i < sl + kl; ++i)
-                                    total *= B_NBEH;
-                                for (int x = 0; x < total; ++x) {
-                                    int ss[4], ks[4], y = x, d = 0;
-                                    for (int i = 0; i < sl; ++i) {
-                                        ss[i] = y % B_NBEH;
-                                        y /= B_NBEH;
-                                        d += ss[i] != B_REST;
-                                    }
-                                    for (int i = 0; i < kl; ++i) {
-                                        ks[i] = y % B_NBEH;
-                                        y /= B_NBEH;
-                                        d += ks[i] != B_REST;
-                                    }
-                                    /* canonical scripts only: the last entry of a script is a deviation */
-                                    if ((sl && ss[sl - 1] == B_REST) || (kl && ks[kl - 1] == B_REST) || d != dev)
-                                        continue;
-                                    char sd[40] = "", kd[40] = "";
-                                    if (mc_would_run()) {
-                                        for (int i = 0; i < sl; ++i)
-                                            snprintf(sd + strlen(sd), sizeof sd - strlen(sd), "%s%s", i ? "," : "", BN[ss[i]]);
-                                        for (int i = 0; i < kl; ++i)
-                                            snprintf(kd + strlen(kd), sizeof kd - strlen(kd), "%s%s", i ? "," : "", BN[ks[i]]);
-                                    }
-                                    if (!mc_case("getbuffer dev=%d op=%s n=%zu stream=%zu scratch=(size %zu, region [%zu,%zu)) src=[%s] snk=[%s]", dev, OPN[op],
-                                                 n, stream, G[gi][0], G[gi][1], G[gi][2], sd, kd))
-                                        continue;
-                                    run(op, n, stream, G[gi][0], G[gi][1], G[gi][2], ss, sl, ks, kl);
-                                    mc_end(true, mc.cur_failed ? "failed" : op == OP_N ? (n <= stream ? "n-moved" : "n-source-ended") : op == OP_DRAIN ? "drained" : "atmost-moved");
-                                }
-                            }
-                }
-    mc_finish(true, th ? "4 plumbing operations x 6 scratch geometries x streams 1..9 x every n <= stream+1 x all source and sink scripts of length <= 4 over {rest,1,2}"
-                       : "4 plumbing operations x 6 scratch geometries x streams 1..7 x every n <= stream+1 x all source and sink scripts of length <= 3 over {rest,1,2}");
+                for (size_t n = 1; n <= ((op == OP_N || op == OP_ATMOST) ? stream + 1 : 1); ++n)
+                    for (int dev = 0; dev <= maxlen; ++dev) {
+                        struct en e;
+                        memset(&e, 0, sizeof e);
+                        e.op = op;
+                        e.gi = (int)gi;
+                        e.d = dev;
+                        e.slots = maxlen;
+                        e.n = n;
+                        e.stream = stream;
+                        en_rec(&e, 0, dev);
+                    }
+    mc_finish(true, th ? "4 plumbing operations x 6 scratch geometries x streams 1..9 x every n <= stream+1 x every placement of <= 4 answers from {1, 2, 0, EINTR, EAGAIN, EIO} over 4+4 source and sink call slots (default: rest)"
+                       : "4 plumbing operations x 6 scratch geometries x streams 1..7 x every n <= stream+1 x every placement of <= 3 answers from {1, 2, 0, EINTR, EAGAIN, EIO} over 3+3 source and sink call slots (default: rest)");
     return 0;
 }
